@@ -348,7 +348,7 @@ def run_check(prop, title, families, tier, meta):
     nproc = int(os.environ.get("VERIF_JOBS", "16"))
     if nproc > 1:
         ctxm = mp.get_context("fork")
-        with ctxm.Pool(nproc, maxtasksperchild=8) as pool:
+        with ctxm.Pool(nproc, maxtasksperchild=int(os.environ.get("VERIF_TASKS_PER_CHILD", "200"))) as pool:
             # heavy (split) families first so that their subtrees can be queued early
             order = sorted(tasks, key=lambda t: 0 if t[0].split_depth else 1)
             pending = [pool.apply_async(_task, (t,)) for t in order]
@@ -417,6 +417,8 @@ def run_check(prop, title, families, tier, meta):
         fs["inconclusive"] += r["stats"]["inconclusive"]
         fs["wall_s"] += r["wall"]
         fs["claims"].update(r["reached"])
+        if os.environ.get("VERIF_SLOW") and r["wall"] > float(os.environ["VERIF_SLOW"]):
+            print("SLOW-TASK %.0fs paths=%d %s %s" % (r["wall"], r["stats"]["paths"], r["family"], r["cfg"]))
         if r["error"]:
             errors.append((r["family"], r["cfg"], r["error"]))
         if r["truncated"]:
